@@ -309,7 +309,7 @@ def shape_of(q):
     return ([len(b["keys"]) for b in q["bundles"]], len({k["pub"] for b in q["bundles"] for k in b["keys"]}))
 
 
-def verdict_case(kind, ksr_xml, prev_doc, n_ksr, n_prev, with_prev=True, extra_policy=None, strict=True, shape=None):
+def verdict_case(kind, ksr_xml, prev_doc, n_ksr, n_prev, with_prev=True, extra_policy=None, strict=True, shape=None, expect=None):
     if isinstance(ksr_xml, dict):
         shape = shape or shape_of(ksr_xml)
         ksr_xml = ksrxml.render_ksr(ksr_xml).encode()
@@ -353,6 +353,13 @@ def verdict_case(kind, ksr_xml, prev_doc, n_ksr, n_prev, with_prev=True, extra_p
         probs.append("the receiver reports OK for a KSR the signer's validation refuses")
     if signer_pv and status != "ERROR":
         probs.append(f"a policy violation is reported as {status or r[2]} instead of ERROR")
+    # what the documents were built to be (independent of any loader): an honest successor of the SKR now at the configured path is acceptable,
+    # a successor of some other SKR is not
+    if expect == "OK" and status != "OK":
+        probs.append(f"an honest successor of the previous SKR that is at the configured path is reported as {status or r[2]}"
+                     + (f" ({r[1].get('message', '')[:160]})" if r[0] == "ok" else ""))
+    if expect == "not-OK" and status == "OK":
+        probs.append("a KSR that does not chain to the previous SKR at the configured path is reported OK")
     if status == "OK" and ksr_r[0] == "ok" and ksr_r[1].id not in r[1].get("message", ""):
         probs.append("OK message does not name the KSR id")
     # ---- model case
@@ -406,6 +413,19 @@ def successor(skr, zskpol, n=3, overlap=D(days=11), first_keys=None, rid="next-r
     return skrgen.honest_request(rid, start, n, zs, zskpol, sign=True)
 
 
+# the previous SKR is whatever is at the configured path when the upload arrives: the file is replaced between uploads, configuration unchanged
+def prev_skr_at(t0, rid, n, zskpol):
+    zs = [[ZSKS[0], ZSKS[1]]] + [[ZSKS[1]]] * (n - 2) + [[ZSKS[1], ZSKS[2]]]
+    return skrgen.simulate_skr(skrgen.honest_request(rid, t0, n, zs, zskpol, sign=False), SCHEMA, KSKS, ksrxml.default_zsk_policy())
+
+
+zskpol = ksrxml.default_zsk_policy()
+SK_A, SK_B = prev_skr_at(T0, "prev-req-a", 2, zskpol), prev_skr_at(T0 + D(days=40), "prev-req-b", 2, zskpol)
+for rnd in range(2):
+    for cur, other, tag in ((SK_A, SK_B, "a"), (SK_B, SK_A, "b")):
+        verdict_case("previous-skr-replaced", successor(cur, zskpol, n=2, rid=f"next-{tag}{rnd}"), ksrxml.render_skr(cur), 2, 2, expect="OK")
+        verdict_case("previous-skr-replaced-stale-successor", successor(other, zskpol, n=2, rid=f"stale-{tag}{rnd}"), ksrxml.render_skr(cur), 2, 2, expect="not-OK")
+
 for rnd in range(3 if not THOROUGH else 12):
     zskpol = ksrxml.default_zsk_policy()
     n_prev, n = R.choice([2, 3, 9]), R.choice([2, 3])
@@ -416,7 +436,7 @@ for rnd in range(3 if not THOROUGH else 12):
     ok = successor(skr, zskpol, n=n)
     enc = lambda q: q
     raw = lambda q: ksrxml.render_ksr(q).encode()
-    verdict_case("honest", enc(ok), sdoc, n, n_prev)
+    verdict_case("honest", enc(ok), sdoc, n, n_prev, expect="OK")
     verdict_case("honest-no-previous-configured", enc(ok), None, n, n_prev, with_prev=False)
     verdict_case("replayed-request-id", enc(successor(skr, zskpol, n=n, rid=skr["id"])), sdoc, n, n_prev)
     rep_ = successor(skr, zskpol, n=n, rid=skr["id"])
